@@ -1289,10 +1289,27 @@ def finish(total, tier, seed):
         raise HarnessError("only %d of %d safeEval call sites were reached by a canary (need >= %d)" % (len(hit), len(static), need))
 
 
+def _limit_memory():
+    """A single bit flip in a count/range field can make a table parser allocate tens of gigabytes inside one
+    C-level call (observed: cmap format 12 group spanning 2**30 code points: 20+ minutes, not interruptible).
+    Cap the address space of the worker so that such cases end quickly with MemoryError (an ordinary
+    exception, which the ignoreDecompileErrors fallback also catches)."""
+    import resource
+
+    soft, hard = resource.getrlimit(resource.RLIMIT_AS)
+    want = 4 << 30
+    if soft == resource.RLIM_INFINITY or soft > want:
+        try:
+            resource.setrlimit(resource.RLIMIT_AS, (want, hard))
+        except (ValueError, OSError):
+            pass
+
+
 def run_job(job):
     from vf.runner import bootstrap
 
     bootstrap()
+    _limit_memory()
     acc = Acc()
     k = job["kind"]
     if k == "open":
@@ -1324,6 +1341,7 @@ def replay(case):
     from vf.runner import bootstrap
 
     bootstrap()
+    _limit_memory()
     acc = Acc()
     sp = case["space"]
     if sp == "open":
